@@ -565,12 +565,16 @@ func (d *dataCloser) Close() error {
 
 	expectedResponses := len(d.c.rcpts)
 	if d.c.lmtp {
+		var firstErr error
 		for expectedResponses > 0 {
 			rcpt := d.c.rcpts[len(d.c.rcpts)-expectedResponses]
 			if _, _, err := d.c.readResponse(250); err != nil {
 				if smtpErr, ok := err.(*SMTPError); ok {
 					if d.statusCb != nil {
 						d.statusCb(rcpt, smtpErr)
+					} else if firstErr == nil {
+						// Nobody else will hear about it.
+						firstErr = smtpErr
 					}
 				} else {
 					return err
@@ -579,6 +583,9 @@ func (d *dataCloser) Close() error {
 				d.statusCb(rcpt, nil)
 			}
 			expectedResponses--
+		}
+		if firstErr != nil {
+			return firstErr
 		}
 	} else {
 		_, _, err := d.c.readResponse(250)
